@@ -4,6 +4,8 @@ go 1.26.0
 
 require (
 	github.com/database64128/shadowsocks-go v0.0.0
+	github.com/oschwald/geoip2-golang/v2 v2.2.0
+	github.com/oschwald/maxminddb-golang/v2 v2.3.0
 	go.uber.org/zap v1.28.0
 	golang.org/x/net v0.57.0
 	golang.org/x/sys v0.47.0
@@ -16,8 +18,6 @@ require (
 	github.com/database64128/tfo-go/v2 v2.3.3 // indirect
 	github.com/gaissmai/bart v0.29.0 // indirect
 	github.com/klauspost/cpuid/v2 v2.3.0 // indirect
-	github.com/oschwald/geoip2-golang/v2 v2.2.0 // indirect
-	github.com/oschwald/maxminddb-golang/v2 v2.3.0 // indirect
 	go.uber.org/multierr v1.11.0 // indirect
 )
 
